@@ -273,8 +273,11 @@ enum Op {
     DropIter,
     /// drop the call object of an iteration whose final reply has not been consumed
     Abandon,
+    /// a second send (more / call / oneway) on the call object that is in the middle of its
+    /// iteration: refused, nothing written, and the iteration goes on where it was
+    ResendIter,
 }
-const OPS: &[Op] = &[Op::Call, Op::More0, Op::More2, Op::More2ErrMid, Op::More2ErrLast, Op::Next, Op::Oneway, Op::Resend, Op::DropIter, Op::Abandon];
+const OPS: &[Op] = &[Op::Call, Op::More0, Op::More2, Op::More2ErrMid, Op::More2ErrLast, Op::Next, Op::Oneway, Op::Resend, Op::DropIter, Op::Abandon, Op::ResendIter];
 
 fn seq_script(v: &Value) -> Vec<Value> {
     if v.get("oneway") == Some(&Value::Bool(true)) {
@@ -438,6 +441,23 @@ fn sequential_case(ctx: &Ctx, ops: &[Op], case_id: usize) {
                         Err(e) if matches!(e.kind(), ErrorKind::MethodCalledAlready) || (busy && matches!(e.kind(), ErrorKind::ConnectionBusy)) => {}
                         other => {
                             fail = Some(("c07:call-object-sent-twice".into(), format!("op {}: second send on a used call object returned {:?}", i, other.map_err(|e| kind_name(&e)))));
+                            break;
+                        }
+                    }
+                }
+            }
+            Op::ResendIter => {
+                if let Some((mc, _, _, _, _)) = iter.as_mut() {
+                    let r: Result<(), varlink::Error> = match i % 3 {
+                        0 => mc.more().map(|_| ()),
+                        1 => mc.call().map(|_| ()),
+                        _ => mc.oneway(),
+                    };
+                    trace.push(format!("ResendIter{}->{:?}", i % 3, r.as_ref().map_err(kind_name)));
+                    match r {
+                        Err(e) if matches!(e.kind(), ErrorKind::MethodCalledAlready | ErrorKind::ConnectionBusy) => {}
+                        other => {
+                            fail = Some(("c07:call-object-sent-twice".into(), format!("op {}: second send on the iterating call object returned {:?}", i, other.map_err(|e| kind_name(&e)))));
                             break;
                         }
                     }
